@@ -58,7 +58,9 @@ func (c10) Info() core.Info {
 var c10Keys = []string{",", "a", "b", "1", "12", "x"}
 var c10Vals = []string{"", "a", "Ab", "a,b", "12", "-3", "1.5", "x1", "a,b,,c", "1,2", "0", "3,4",
 	// the edges of the int reading: int64 limits and their neighbours, a sign, leading zeros beyond 19 digits
-	"9223372036854775807", "9223372036854775808", "-9223372036854775808", "-9223372036854775809", "+5", "0000000000000000000000123"}
+	"9223372036854775807", "9223372036854775808", "-9223372036854775808", "-9223372036854775809", "+5", "0000000000000000000000123",
+	// bytes that are no valid UTF-8 next to ASCII letters of both cases
+	"\xffaB", "Zz\xc3", "q\xf0\x9fQ"}
 var c10Docs = []string{
 	`{"a":1,"l":[1,"y"],"o":{"b":"x","l":[2,3]},"s":"t"}`,
 	`{"a":"x","l":["p","q","r"],"o":{"b":[1,"y"],"l":["z"]},"s":""}`,
